@@ -5,6 +5,7 @@ from __future__ import annotations
 import dataclasses
 import hashlib
 import itertools
+import sys
 import json
 import random
 import warnings
@@ -550,27 +551,31 @@ MAXALTS = 6
 def add_alt(line, prior, witness):
     """a transition is kept once; up to MAXALTS histories that reached it are kept with it (distinct sets of prior
     transitions), so that a later verdict "the history was already inconsistent" is only given when that holds for
-    every history seen"""
+    every history seen.  An alternative is the pair (prior transitions, witness); the hashes are interned: millions of
+    them are kept"""
+    prior = tuple(sys.intern(x) for x in prior)
     ps = set(prior)
-    for a in line["alts"]:
-        if set(a["prior"]) == ps:
+    alts = line["alts"]
+    for a in alts:
+        if set(a[0]) == ps:
             return
-    if len(line["alts"]) < MAXALTS:
-        line["alts"].append({"prior": prior, "witness": witness})
+    if len(alts) < MAXALTS:
+        alts.append((prior, witness))
     else:
         # prefer short histories: fewer earlier transitions that could have broken something
-        j = max(range(MAXALTS), key=lambda x: len(line["alts"][x]["prior"]))
-        if len(prior) < len(line["alts"][j]["prior"]):
-            line["alts"][j] = {"prior": prior, "witness": witness}
+        j = max(range(MAXALTS), key=lambda x: len(alts[x][0]))
+        if len(prior) < len(alts[j][0]):
+            alts[j] = (prior, witness)
 
 
 def merge_sink(dst, src):
     for h, ln in src.items():
         if h not in dst:
-            dst[h] = ln
+            ln["alts"] = [(tuple(sys.intern(x) for x in a[0]), a[1]) for a in ln["alts"]]
+            dst[sys.intern(h)] = ln
         else:
             for a in ln["alts"]:
-                add_alt(dst[h], a["prior"], a["witness"])
+                add_alt(dst[h], a[0], a[1])
 
 
 def _exec(chunk, arg):
@@ -1000,8 +1005,8 @@ def first_sound_history(ln, bad):
     """C18 is an invariant of histories: a transition is reported for a history in which no earlier transition had
     already broken it (that one is reported).  -> witness program, or None when every recorded history was broken"""
     for a in ln["alts"]:
-        if not (set(a["prior"]) & bad):
-            return a["witness"]
+        if not (set(a[0]) & bad):
+            return a[1]
     return None
 
 
